@@ -6,6 +6,7 @@ import (
 	"fmt"
 	"google.golang.org/grpc/codes"
 	"google.golang.org/grpc/status"
+	"runtime"
 	"runtime/debug"
 	"sort"
 	"strconv"
@@ -44,6 +45,7 @@ type Runner struct {
 	discardsSeen float64
 	corruptions  int // detections so far
 	// an armed I/O fault of the data device: the ioCount-th next read ("r") or write ("w") fails once
+	noState bool
 	ioKind  string
 	ioCount int
 	ioFired bool
@@ -155,6 +157,10 @@ func joinInts(xs []int) string {
 func (r *Runner) hier() bool { return r.st.Cfg.Kind == "hier" }
 
 func (r *Runner) state() {
+	if r.noState {
+		// the implementation is ahead of the model (a read is finishing in its own goroutine): compare later
+		return
+	}
 	if len(r.st.FreeHits) > 0 {
 		r.oracle("C04", "the device region of a block on the allocator's free list was accessed by a reader or writer that is still active", r.st.FreeHits[0])
 		r.st.FreeHits = nil
@@ -398,13 +404,89 @@ func (r *Runner) syncDiscards() bool {
 	return false
 }
 
-func (r *Runner) get(obj int, mode string) {
+// handover: an upload to start in the gap between a read's read-locked lookup and its write-locked refresh.
+type handover struct {
+	id, obj, ver    int
+	chunking, fault string
+}
+
+// getAcrossHandover runs Get(obj) in its own goroutine. If the read decides under the read lock that the object needs
+// a refresh, it is held there, the upload h is started (its first locked region queues for the write lock), the read is
+// released, the upload's first region runs (possibly rotating blocks) and only then does the read come back with the
+// write lock. The upload's begin lines are sent to the model before the read's. used reports whether h was started.
+func (r *Runner) getAcrossHandover(obj int, mode string, h *handover) (kind string, data []byte, used bool) {
+	reached, release := r.st.Gate.arm()
+	type result struct {
+		kind string
+		data []byte
+	}
+	res := make(chan result, 1)
+	go func() {
+		k, d := consumeMode(r.st.BA.Get(context.Background(), r.Digest(obj)), mode, int(r.Digest(obj).GetSizeBytes()))
+		res <- result{k, d}
+	}()
+	select {
+	case x := <-res:
+		// the read never reached a refresh decision: nothing to interleave
+		r.st.Gate.disarm()
+		return x.kind, x.data, false
+	case <-reached:
+	case <-time.After(20 * time.Second):
+		panic("deadlock: a read neither finished nor reached its lock hand-over within 20s")
+	}
+	op, size := r.launchPut(h.id, h.obj, h.ver, h.chunking, h.fault)
+	// wait until the upload is queued for the write lock (a pending writer makes TryRLock fail), or has got through
+	// without needing it
+	for i := 0; i < 200000; i++ {
+		if !r.st.Lock.TryRLock() {
+			break
+		}
+		r.st.Lock.RUnlock()
+		if len(r.ev) > 0 {
+			break
+		}
+		runtime.Gosched()
+	}
+	close(release)
+	e := r.wait()
+	r.noState = true
+	r.afterPutStart(op, size, e)
+	r.noState = false
+	select {
+	case x := <-res:
+		return x.kind, x.data, true
+	case <-time.After(20 * time.Second):
+		panic("deadlock: a read did not finish within 20s after its lock hand-over")
+	}
+}
+
+func (r *Runner) get(obj int, mode string, hand ...*handover) {
 	id := r.nextOp
 	r.nextOp++
 	writesBefore, newsBefore, discardsBefore := r.devWrites(), r.st.Alloc.News.Load(), r.discards.total()
+	// (with an upload interleaved at the lock hand-over the object may legitimately be evicted during the call)
 	stored := r.hier() && r.storedUnderPrefix(obj)
 	r.ioFired = false
-	kind, data := consumeMode(r.st.BA.Get(context.Background(), r.Digest(obj)), mode, int(r.Digest(obj).GetSizeBytes()))
+	var locBefore int64
+	var okBefore bool
+	if r.ioKind != "" {
+		if r.hier() {
+			locBefore, okBefore = r.newestLocation(obj)
+		} else {
+			locBefore, okBefore = r.location(obj)
+		}
+	}
+	var kind string
+	var data []byte
+	if len(hand) > 0 && hand[0] != nil {
+		var used bool
+		kind, data, used = r.getAcrossHandover(obj, mode, hand[0])
+		if !used {
+			defer r.startPut(hand[0].id, hand[0].obj, hand[0].ver, hand[0].chunking, hand[0].fault)
+		}
+	} else {
+		kind, data = consumeMode(r.st.BA.Get(context.Background(), r.Digest(obj)), mode, int(r.Digest(obj).GetSizeBytes()))
+	}
 	if r.ioFired {
 		// a device read or write failed during this read: no data may be served; a refresh in progress is abandoned
 		r.ioFired = false
@@ -419,10 +501,33 @@ func (r *Runner) get(obj int, mode string) {
 			reply = r.m(fmt.Sprintf("fget.begin %d %d", id, r.flatKey(obj)), "-")
 		}
 		if reply == "refresh" {
-			r.m(fmt.Sprintf("abort %d", id), "ok")
+			// the failing access may have hit the refresh copy (the refresh is abandoned) or only the caller's own
+			// read of the source (with a validation cache the two read the device independently: the copy completes and
+			// is registered although the caller gets the error); the index tells which
+			after, okAfter := locBefore, false
+			if r.hier() {
+				after, okAfter = r.newestLocation(obj)
+			} else {
+				after, okAfter = r.location(obj)
+			}
+			if okAfter && (!okBefore || after > locBefore) {
+				r.m(fmt.Sprintf("copy %d", id), "ok")
+				if r.hier() {
+					ck, _ := r.hierKeys(obj)
+					r.m(fmt.Sprintf("hget.end %d %d", id, ck), "-")
+				} else {
+					r.m(fmt.Sprintf("fget.end %d %d", id, r.flatKey(obj)), "-")
+				}
+			} else {
+				r.m(fmt.Sprintf("abort %d", id), "ok")
+			}
 		}
 		r.state()
 		return
+	}
+	if stored && kind == "not-found" && len(hand) > 0 {
+		// an upload ran inside the call and may have evicted the object: only judge if it is still there afterwards
+		stored = r.storedUnderPrefix(obj)
 	}
 	if stored && kind == "not-found" {
 		r.oracle("C10", "an object stored under a component-wise prefix of the reader's instance name was not found",
@@ -856,6 +961,12 @@ func RunCase(model *hx.Model, dr *discardReader, name string, script []string) (
 				r.ioKind = "" // device faults are only injected into uploads and single reads
 				r.drainComposites()
 				r.findMissing(os)
+			}
+		case "getx": // getx <obj> <op> <putobj> <ver> <chunking> <fault>: a read with an upload started at its lock hand-over
+			if len(w) == 7 && okObj(n(1)) && okObj(n(3)) && r.st.Cfg.Kind != "ac" {
+				r.ioKind = ""
+				r.drainComposites()
+				r.get(n(1), "s", &handover{id: n(2), obj: n(3), ver: n(4), chunking: w[5], fault: w[6]})
 			}
 		case "ioerr": // ioerr <r|w> <k>: the k-th next data device read / write fails once
 			compPending := false
